@@ -47,9 +47,34 @@ func isNilTest(s cmpSite) bool {
 	return false
 }
 
+// sibItem: one comparison left over after cancelling a copy against its predecessor, in its three normal forms (cuts:
+// insensitive to negation and to < vs <=+1): with operand names, with locals resolved, with locals named by type.
+type sibItem struct {
+	sign       string // "-" only in the predecessor, "+" only in the later fork
+	n, r, a    string
+	sn, sr, sa string // the side of each form's cut on which the path is refused or skipped ("" unknown)
+}
+
+func (it sibItem) String() string { return it.sign + it.n + "¦" + it.r + "¦" + it.a }
+
+func parseSibItems(s string) []sibItem {
+	var out []sibItem
+	for _, part := range strings.Split(s, " ; ") {
+		if part == "" {
+			continue
+		}
+		f := strings.Split(part[1:], "¦")
+		for len(f) < 3 {
+			f = append(f, f[0])
+		}
+		out = append(out, sibItem{sign: part[:1], n: f[0], r: f[1], a: f[2]})
+	}
+	return out
+}
+
 type sibDiff struct {
 	name, base, fork string
-	minus, plus      []string // residual signatures (named form) only in base / only in fork
+	items            []sibItem
 	pos              token.Pos
 	n                int
 }
@@ -72,7 +97,8 @@ func siblingDiffs(all map[string][]cmpSite) []sibDiff {
 			fam[name] = map[string][]cmpSite{}
 		}
 		for _, s := range sites {
-			if !isNilTest(s) {
+			// nil tests are err.flow's; the bound of a plain counting loop over len(x) says what `range x` says
+			if !isNilTest(s) && !(s.full && strings.Contains(s.pr.String(), "len(")) {
 				fam[name][pkg] = append(fam[name][pkg], s)
 			}
 		}
@@ -96,21 +122,23 @@ func siblingDiffs(all map[string][]cmpSite) []sibDiff {
 			if len(m[f]) > 0 {
 				d.pos = m[f][0].pos
 			}
-			// multiset difference on the named form
-			type ent struct {
-				named, abs string
+			mk := func(ss []cmpSite, sign string) []sibItem {
+				var out []sibItem
+				for _, s := range ss {
+					it := sibItem{sign: sign, n: canonCut(s.p, s.op), r: canonCut(s.pr, s.op), a: canonCutAbs(s.pa, s.op)}
+					it.sa = cutSide(lastAbsPoly, s.rop)
+					it.sn, it.sr = cutSide(s.p, s.rop), cutSide(s.pr, s.rop)
+					out = append(out, it)
+				}
+				return out
 			}
-			var bs, fs []ent
-			for _, s := range m[prev] {
-				bs = append(bs, ent{orient(s.p, s.op), orient(s.pa, s.op)})
-			}
-			for _, s := range m[f] {
-				fs = append(fs, ent{orient(s.p, s.op), orient(s.pa, s.op)})
-			}
-			cancel := func(key func(ent) string) {
+			bs, fs := mk(m[prev], "-"), mk(m[f], "+")
+			// a pair cancels when a form agrees and the readings (refused/skipped under which operator) do not disagree
+			pol := func(a, b string) bool { return a == "" || b == "" || a == b }
+			cancel := func(eq func(x, y sibItem) bool) {
 				for i := 0; i < len(bs); i++ {
 					for j := 0; j < len(fs); j++ {
-						if key(bs[i]) == key(fs[j]) {
+						if eq(bs[i], fs[j]) {
 							bs = append(bs[:i], bs[i+1:]...)
 							fs = append(fs[:j], fs[j+1:]...)
 							i--
@@ -119,32 +147,16 @@ func siblingDiffs(all map[string][]cmpSite) []sibDiff {
 					}
 				}
 			}
-			cancel(func(e ent) string { return e.named })
+			cancel(func(x, y sibItem) bool { return x.n == y.n && pol(x.sn, y.sn) })
+			cancel(func(x, y sibItem) bool { return x.r == y.r && pol(x.sr, y.sr) })
 			// renamed locals: equal once locals are named by type — unless the name the predecessor uses is still a
 			// variable of this copy, in which case another value of the same type was put in its place
 			forkFn := f + "." + name
-			for i := 0; i < len(bs); i++ {
-				for j := 0; j < len(fs); j++ {
-					if bs[i].abs != fs[j].abs {
-						continue
-					}
-					if sw := stillDeclaredIn(forkFn, []string{bs[i].named}, []string{fs[j].named}); len(sw) > 0 {
-						continue
-					}
-					bs = append(bs[:i], bs[i+1:]...)
-					fs = append(fs[:j], fs[j+1:]...)
-					i--
-					break
-				}
-			}
-			for _, e := range bs {
-				d.minus = append(d.minus, e.abs)
-			}
-			for _, e := range fs {
-				d.plus = append(d.plus, e.abs)
-			}
-			sort.Strings(d.minus)
-			sort.Strings(d.plus)
+			cancel(func(x, y sibItem) bool {
+				return x.a == y.a && pol(x.sa, y.sa) && len(stillDeclaredIn(forkFn, []string{x.n}, []string{y.n, y.r})) == 0
+			})
+			d.items = append(append(d.items, bs...), fs...)
+			sort.Slice(d.items, func(i, j int) bool { return d.items[i].sign+d.items[i].a < d.items[j].sign+d.items[j].a })
 			out = append(out, d)
 			prev = f
 		}
@@ -152,15 +164,48 @@ func siblingDiffs(all map[string][]cmpSite) []sibDiff {
 	return out
 }
 
+// sig: the residual in full (what the table records); show: the readable form.
 func (d sibDiff) sig() string {
 	var parts []string
-	for _, m := range d.minus {
-		parts = append(parts, "-"+m)
-	}
-	for _, p := range d.plus {
-		parts = append(parts, "+"+p)
+	for _, it := range d.items {
+		parts = append(parts, it.String())
 	}
 	return strings.Join(parts, " ; ")
+}
+
+func (d sibDiff) show() string {
+	var parts []string
+	for _, it := range d.items {
+		parts = append(parts, it.sign+it.a)
+	}
+	return strings.Join(parts, " ; ")
+}
+
+// matches: every recorded item is one of the residual items (same side, any of the three forms agreeing) and nothing
+// else is left over.
+func (d sibDiff) matches(recorded string) bool {
+	want := parseSibItems(recorded)
+	if len(want) != len(d.items) {
+		return false
+	}
+	used := make([]bool, len(d.items))
+	for _, w := range want {
+		found := false
+		for i, it := range d.items {
+			if used[i] || it.sign != w.sign {
+				continue
+			}
+			if it.n == w.n || it.r == w.r || it.a == w.a {
+				used[i] = true
+				found = true
+				break
+			}
+		}
+		if !found {
+			return false
+		}
+	}
+	return true
 }
 
 func cmdSiblings(args []string) int {
@@ -171,7 +216,7 @@ func cmdSiblings(args []string) int {
 	}
 	same := 0
 	for _, d := range siblingDiffs(collectCmps(p)) {
-		if len(d.minus)+len(d.plus) == 0 {
+		if len(d.items) == 0 {
 			same++
 			continue
 		}
@@ -192,14 +237,14 @@ func ruleSiblingCmp(c *Ctx) {
 		key := d.fork + "." + d.name + "~" + d.base
 		seen[k] = true
 		w, tabled := want[k]
-		got := d.sig()
+		got := d.show()
 		switch {
 		case tabled && w.rewrite:
 			c.info(key, d.pos, "the %s version is a different algorithm (%s); not compared", d.fork, w.why)
-		case tabled && got == w.delta:
+		case tabled && d.matches(w.delta):
 			c.ok(key, d.pos, "differs from %s exactly by the recorded fork delta (%s)", d.base, w.why)
 		case tabled:
-			c.bad(key, d.pos, "%s.%s and %s.%s no longer differ by the recorded fork delta (%s).\n      recorded: %s\n      now:      %s", d.fork, d.name, d.base, d.name, w.why, w.delta, got)
+			c.bad(key, d.pos, "%s.%s and %s.%s no longer differ by the recorded fork delta (%s).\n      recorded: %s\n      now:      %s", d.fork, d.name, d.base, d.name, w.why, showRecorded(w.delta), got)
 		case got == "":
 			c.ok(key, d.pos, "%d comparisons, the same as in %s", d.n, d.base)
 		default:
@@ -260,7 +305,7 @@ func cmdSiblingCalls() int {
 			same++
 			continue
 		}
-		fmt.Printf("%s|%s|%s|%s\n", d.name, d.base, d.fork, d.sig())
+		fmt.Printf("%s|%s|%s|%s\n", d.name, d.base, d.fork, d.show())
 	}
 	fmt.Println("same:", same)
 	return 0
@@ -299,9 +344,11 @@ func siblingCallDiffs(all map[string][]string) []sibDiff {
 			for _, k := range sortedKeys(cnt) {
 				switch n := cnt[k]; {
 				case n < 0:
-					d.minus = append(d.minus, fmt.Sprintf("%s x%d", k, -n))
+					t := fmt.Sprintf("%s x%d", k, -n)
+					d.items = append(d.items, sibItem{sign: "-", n: t, r: t, a: t})
 				case n > 0:
-					d.plus = append(d.plus, fmt.Sprintf("%s x%d", k, n))
+					t := fmt.Sprintf("%s x%d", k, n)
+					d.items = append(d.items, sibItem{sign: "+", n: t, r: t, a: t})
 				}
 			}
 			out = append(out, d)
@@ -350,4 +397,12 @@ func stillDeclaredIn(fn string, want, got []string) []string {
 		}
 	}
 	return out
+}
+
+func showRecorded(delta string) string {
+	var parts []string
+	for _, it := range parseSibItems(delta) {
+		parts = append(parts, it.sign+it.a)
+	}
+	return strings.Join(parts, " ; ")
 }
